@@ -221,7 +221,7 @@ def rule_iter_steps(col, facts, crates):
                 # a guard that is there but spelt in a way this rule does not read (`leading == Some(b'+')` on a copy
                 # of `first()`, joined with `||`): every way into the block carries a condition computed from a look at
                 # the same iterator.  That is not a finding; the site is recorded as not decided.
-                if _looked_at_on_every_edge(f, bb, recv):
+                if not facts_ and _looked_at_on_every_edge(f, bb, recv):       # (a guard that *is* read but gives too few bytes stays a violation)
                     col.assumed("not-applied", "GRD-step:%s" % key, "the step is dominated on every incoming edge by a condition computed from a look at the same iterator, in a form the guard reader does not know: not decided", loc)
                     continue
                 col.bad(R, key, "%s(%s) is not dominated by a successful peek/first/first_is/is_buffer_empty/peek_u%d on the same iterator (facts on path: %s)" %
